@@ -313,6 +313,9 @@ func (f *Frame) applyContract(ct *Contract, fn *ssa.Function, sig *types.Signatu
 	}
 	env.cur, env.old = st, pre
 	for _, e := range ct.Ensures {
+		if strings.HasSuffix(e.Tag, ",local") {
+			continue // proved for the callee, not exported to callers
+		}
 		t, err := env.boolTerm(e.E)
 		if err != nil {
 			c.unsupported("ensures of %s: %v", ct.Key, err)
@@ -337,7 +340,7 @@ func resultNames(ct *Contract, sig *types.Signature) []string {
 
 // calleeEnv builds the spec environment binding the callee's parameters.
 func (f *Frame) calleeEnv(ct *Contract, fn *ssa.Function, sig *types.Signature, args []Val) *SpecEnv {
-	env := &SpecEnv{f: f, c: f.c, vars: map[string]Val{}}
+	env := &SpecEnv{f: f, c: f.c, vars: map[string]Val{}, bound: map[string]bool{}}
 	var names []string
 	if fn != nil {
 		for _, fv := range fn.FreeVars {
